@@ -218,7 +218,9 @@ func (ba BaseAuction) Validate() error {
 	if err := sdk.ValidateDenom(ba.PayingCoinDenom); err != nil {
 		return sdkerrors.Wrapf(errors.ErrInvalidRequest, "invalid paying coin denom: %v", err)
 	}
-	if err := ValidateVestingSchedules(ba.VestingSchedules, ba.EndTimes[len(ba.EndTimes)-1]); err != nil {
+	// The vesting schedules are agreed against the original end time when the auction is created;
+	// the end times appended by extended rounds must not invalidate them
+	if err := ValidateVestingSchedules(ba.VestingSchedules, ba.EndTimes[0]); err != nil {
 		return err
 	}
 	return nil
